@@ -384,3 +384,17 @@ package index
 //@   call[multiWidthCodedIndex.Unmarshal#0] assert reads_into_the_new_bucket [C11]: ref(arg0) == ref(mwci) && ref(arg1) == ref(r)
 //@   call[MultihashIndexSorted.put#0] assert stores_the_bucket_created_in_this_iteration [C11]: ref(arg1) == ref(mwci) && mark(m) == i
 //@   note stores_the_bucket_created_in_this_iteration: one bucket object per hash code: the bucket put under a code is the one allocated and read in the same iteration
+
+// Codecs (C05, C11): each index type announces its own multicodec; WriteTo prefixes it and ReadFrom/New dispatch on it.
+
+//@ func (*multiWidthIndex).Codec
+//@   ensures car_index_sorted [C05,C11]: result == 1024
+
+//@ func (*MultihashIndexSorted).Codec
+//@   ensures car_multihash_index_sorted [C05,C11]: result == 1025
+
+//@ func (*InsertionIndex).Codec
+//@   ensures private_insertion_codec [C05,C11]: result == insertionIndexCodec
+
+//@ func (recordSet).Len
+//@   ensures def [C11]: result == len(r)
